@@ -14,11 +14,20 @@
 (* Silent model steps: the clock goroutine (it has no hooks), m3r_ret (the *)
 (* return of reportCopyMetric).  A trace is accepted when all its lines    *)
 (* are consumed; the longest consumed prefix is kept in TLC register 1.    *)
+(*  cfg {producers, nrep, flushers, closers, qcap}   first line            *)
 (*  scn {scenario}  step {t, p, pending, done, qlen}  endx                 *)
 (***************************************************************************)
 EXTENDS M3Reporter, Json, TLCExt
 VARIABLES l, waiting
 TraceLog == ndJsonDeserialize("steps.ndjson")
+(* the first line of a step file gives the model constants of its scenario *)
+Cfg == TraceLog[1]
+SeqSet(s) == {s[i] : i \in 1..Len(s)}
+TProducers == SeqSet(Cfg.producers)
+TFlushers == SeqSet(Cfg.flushers)
+TClosers == SeqSet(Cfg.closers)
+TNRep == Cfg.nrep
+TQCap == Cfg.qcap
 
 Proj(r) == pending = r.pending /\ done = r.done /\ Len(q) = r.qlen
 
@@ -41,7 +50,7 @@ Act(t, p) ==
     [] p = "m3c_cas" -> CCas(t) [] p = "m3c_closedone" -> CCloseDone(t) [] p = "m3c_closemet" -> CCloseMet(t)
     [] p = "m3p_recv" -> PRecv
     [] OTHER -> FALSE
-Stutters == {"start", "m3b_set", "m3p_exit"}
+Stutters == {"start", "m3b_set", "m3p_exit", "z_gate"}
 
 Consume ==
   /\ l <= Len(TraceLog)
